@@ -42,7 +42,8 @@ ENTRIES = ["constraint", "constraint", "lib", "layer", "layer"]
 
 @st.composite
 def _case(draw, tier):
-  cfg = draw(S.pwl_config(max_k=8 if tier == "quick" else 12))
+  cfg = draw(S.pwl_config(max_k=8 if tier == "quick" else 12,
+                          spacings=S.SPACINGS_FINE))
   entry = "layer" if cfg["cyclic"] else draw(st.sampled_from(ENTRIES))
   rows = len(cfg["keypoints"]) - (1 if cfg["cyclic"] else 0)
   return {"cfg": cfg, "entry": entry,
